@@ -12,10 +12,12 @@ LEVEL_TEXT = ("For each scan (tcp syn / fin / null / xmas / flags, udp, icmp, ar
               "mode) the real filter text is compiled by libpcap, executed by the x/net/bpf VM with its snap length, and the accepted bytes go to the real "
               "ProcessPacketData; frames are enumerated structurally (5 sources around the subnet boundary x 9 source ports around the ranges x all 512 flag "
               "sets for syn / flags scans x IHL 5/6/15 x data offset 5/8/15 x payload, ICMP types / codes / TTLs, ARP operations, and unsolicited UDP, IPv6, "
-              "IP-in-IP, fragments). TLC decodes every frame with the reference decoder and decides reported <=> ReplyShape and record = RecordOf.")
+              "IP-in-IP, fragments). TLC decodes every frame with the reference decoder and decides reported <=> ReplyShape and record = RecordOf; result "
+              "objects are read a second time after the batch. Socket-level tier: frames injected into runs of the real binary per command and per "
+              "pass (ScanRun / ScanRunTrace: a frame is printed iff it is reply-shaped under the filter of the pass that is running when it arrives).")
 NOTE = ("Trusted: TLC and the reference decoder WireDecode (validated against the real code on 61 736 vectors in the design phase); the frame builders of the "
         "harness only produce inputs. The NS bit in a SYN scan is not constrained. The per-command RunE wiring of filter and processor (command/tcp_syn.go ...) "
-        "and the per-chunk filter on a real AF_PACKET socket belong to the socket-level tier; here the wiring is replicated in the harness.")
+        "and the per-chunk filter on a real AF_PACKET socket are exercised by the socket-level tier (needs unshare -n); in-process the tcp methods are built by the command's constructor.")
 TECHNIQUE = "TLA+ reference decoder evaluated by TLC on frames run through the real libpcap-compiled filter (bpf VM) and the real processors"
 DESIGN_REF = "DESIGN.md section 5, C03"
 
